@@ -59,7 +59,7 @@ _set('C05', {
     'design_ref': '8/C05',
     'technique': 'Lean 4 theorems (kernel-checked, axioms audited) about a model tied to the code by a per-run correspondence check',
     'note': 'Trusted: Lean 4.33 kernel; axioms propext/Classical.choice/Quot.sound only (audited per theorem every run); the Lean specification (lean/DecimalModel/Spec); the hand-written Lean model of the Go methods (lean/DecimalModel), whose agreement with /repo is what the correspondence run of the same check samples on every run (Go harness + compiled Lean driver + line protocol); tools/gen for the regenerated parts.',
-    'text': "Theorems (Properties/C05.lean, 27; Proofs/Sqrt.lean 970 lines): sqrt_correct - for every canonical finite x >= 0, every effective precision p >= 1 and mode, the model's Sqrt returns the value Spec.sqrtSV prescribes (the integer bracket N^2 <= X < (N+1)^2 of the real root, given by Nat.sqrt with a sticky flag, rounded once), with the receiver's precision and mode preserved; sqrtSpec_bracket/unique/eq_round tie that specification to 'the real root rounded once' without real numbers; midpoint_round - rounding the midpoint N*10+5 equals rounding any value strictly inside (N, N+1) in all six modes (the repaired code's final step); perfect squares give the exact root in every mode; specials, NaN iff negative, aliasing. ABSTRACTED in the model and therefore not covered by a theorem: the Newton iteration and the two correction loops (the model takes the unique candidate s with s^2 <= z < (s+ulp)^2); their exit condition and termination are tied by the run only (perfect squares +-1, exact-tie roots, an exhaustive small-integer sweep at the precisions with least Newton slack).",
+    'text': "Theorems (Properties/C05.lean 27 + Properties/C05Lit.lean 32; Proofs/Sqrt.lean 970 lines): sqrt_correct - for every canonical finite x >= 0, every effective precision p >= 1 and mode, the model's Sqrt returns the value Spec.sqrtSV prescribes (the integer bracket N^2 <= X < (N+1)^2 of the real root, given by Nat.sqrt with a sticky flag, rounded once), with the receiver's precision and mode preserved; sqrtSpec_bracket/unique/eq_round tie that specification to 'the real root rounded once' without real numbers; midpoint_round - rounding the midpoint N*10+5 equals rounding any value strictly inside (N, N+1) in all six modes (the repaired code's final step); perfect squares give the exact root in every mode; specials, NaN iff negative, aliasing. That model abstracts sqrtInverse by the exit condition of its loops. Properties/C05Lit.lean (32; DecimalModel/SqrtLit.lean, Proofs/SqrtLit*.lean 3500 lines) closes the abstraction with a LITERAL model of sqrtInverse (the Newton iteration with the Go precisions and uint32 arithmetic, s = x*t truncated, both correction loops with the ulp recomputed each pass, the midpoint step, Set) whose float64 seed is a universally quantified parameter: loops_partial_correct - from ANY starting s (zero or any positive float of any decade) if the two loops exit, s is exactly the bracket candidate (decade crossings included); loop1_terminates / loop2_terminates with explicit pass bounds; sqrtLit_equiv_sqrt - for EVERY seed (any value, sign or form) and every fuel, whatever the literal model returns equals the abstract model's result (up to zero-word padding of the mantissa), hence sqrtLit_correct: correctly rounded; newton_never_panics; sqrtLit_goodSeed - for a seed within about 20 percent of 1/sqrt(x) the Newton iterates stay positive (error analysis of the five roundings) and the literal Sqrt terminates with the correctly rounded root; sqrtLit_total_noNewton (p <= 15, every seed). Findings of the termination analysis, not reachable with the float64 seed: a seed with x*t0^2 > 3 makes Newton diverge to a negative t and the loops never exit. Not proved: that the float64 seed is within 20 percent (math.Sqrt is outside the model) and the 'at most 2 passes' performance claim. The driver runs the literal model (17-digit seed computed in Lean) beside the abstract one on every Sqrt step.",
 })
 
 _set('C06', {
